@@ -10,8 +10,12 @@ const QUALITIES: [CompressionQuality; 4] = [CompressionQuality::Fast, Compressio
 const DITHERS: [Dithering; 4] = [Dithering::None, Dithering::Color, Dithering::Alpha, Dithering::ColorAndAlpha];
 
 fn enc(format: Format, rgba: &[u8], w: u32, h: u32, q: CompressionQuality, m: ErrorMetric, d: Dithering) -> Option<Vec<u8>> {
+    enc_as(format, rgba, ColorFormat::RGBA_U8, w, h, q, m, d)
+}
+#[allow(clippy::too_many_arguments)]
+fn enc_as(format: Format, rgba: &[u8], color: ColorFormat, w: u32, h: u32, q: CompressionQuality, m: ErrorMetric, d: Dithering) -> Option<Vec<u8>> {
     let mut o = EncodeOptions::default(); o.quality = q; o.error_metric = m; o.dithering = d; o.parallel = false;
-    let view = ImageView::new(rgba, Size::new(w, h), ColorFormat::RGBA_U8)?;
+    let view = ImageView::new(rgba, Size::new(w, h), color)?;
     let mut out = Vec::new();
     watch(120, format!("C13 encode {:?} {w}x{h} {:?} {:?} {:?}", format, q, m, d));
     let r = catch(|| encode(&mut out, view, format, None, &o));
@@ -101,6 +105,34 @@ fn check(out: &mut Out, format: Format, rgba: &[u8], w: u32, h: u32, q: Compress
 }
 
 
+/// BC1's transparency threshold is one half at every input precision: 16-bit and float alpha just below / at / above it
+fn check_bc1_threshold(out: &mut Out, q: CompressionQuality, m: ErrorMetric, d: Dithering, rng: &mut Rng) {
+    let a16: [u16; 8] = [0, 32767, 32768, 32895, 32896, 65535, 32700 + rng.below(68) as u16, 32768 + rng.below(200) as u16];
+    let af: [f32; 8] = [0.0, f32::from_bits(0x3EFF_FFFF), 0.5, f32::from_bits(0x3F00_0001), 0.50195, 1.0, 0.4999, 0.5 + rng.below(1000) as f32 * 1e-6];
+    for prec in 0..2 {
+        // 8 blocks in a row, one alpha value per block (dithering cannot move a block that is constant ... only for None)
+        let (w, h) = (32u32, 4u32);
+        let rgb: Vec<[u8; 3]> = (0..8).map(|_| [rng.next() as u8, rng.next() as u8, rng.next() as u8]).collect();
+        let mut bytes: Vec<u8> = Vec::new();
+        for _y in 0..h { for x in 0..w as usize { let k = x / 4;
+            if prec == 0 { for c in 0..3 { bytes.extend_from_slice(&(rgb[k][c] as u16 * 257).to_ne_bytes()); } bytes.extend_from_slice(&a16[k].to_ne_bytes()); }
+            else { for c in 0..3 { bytes.extend_from_slice(&(rgb[k][c] as f32 / 255.0).to_ne_bytes()); } bytes.extend_from_slice(&af[k].to_ne_bytes()); }
+        } }
+        let color = if prec == 0 { ColorFormat::RGBA_U16 } else { ColorFormat::RGBA_F32 };
+        let what = format!("BC1_UNORM alpha threshold from {:?} quality {:?} metric {:?} dithering {:?}", color.precision, q, m, d);
+        let Some(enc) = enc_as(Format::BC1_UNORM, &bytes, color, w, h, q, m, d) else { println!("IMPL-VIOLATION encode failed or panicked: {what}"); continue; };
+        let Some(back) = dec(Format::BC1_UNORM, &enc, w, h) else { println!("IMPL-VIOLATION decode of the encoder's output failed: {what}"); continue; };
+        out.count("kind_bc1_alpha_threshold"); out.count("oracle_calls");
+        if matches!(d, Dithering::Alpha | Dithering::ColorAndAlpha) { continue; }          // alpha dithering moves individual pixels across the threshold by design
+        for k in 0..8 {
+            let below = if prec == 0 { (a16[k] as u32) * 2 < 65535 } else { af[k] < 0.5 };
+            let want = if below { 0 } else { 255 };
+            for p in 0..16 { let (x, y) = (k * 4 + p % 4, p / 4); let got = back[(y * w as usize + x) * 4 + 3];
+                if got != want { println!("IMPL-VIOLATION BC1 pixel with alpha {} decodes with alpha {got}: {what}", if prec == 0 { format!("{}/65535", a16[k]) } else { format!("{:e}", af[k]) }); return; } }
+        }
+    }
+}
+
 /// one 4x4 block holding exactly the two colours a and b (both exactly representable as 5:6:5 endpoints)
 #[allow(clippy::too_many_arguments)]
 fn check2(out: &mut Out, format: Format, blk: &[u8], q: CompressionQuality, m: ErrorMetric, d: Dithering, a: [u8; 4], b: [u8; 4]) {
@@ -168,6 +200,18 @@ pub fn run(out: &mut Out, tier: &str, seed: u64, _corpus: Option<&str>) {
                             check2(out, format, &blk, q, m, d, a, b2);
                         }
                     }
+                    // single colours under a constant, possibly zero, alpha: the colour of a straight-alpha format does not depend on it
+                    // (BC1 under alpha dithering is left out: dithering the 1-bit alpha moves pixels across the threshold by design)
+                    let bc1_alpha_dither = format == Format::BC1_UNORM && matches!(d, Dithering::Alpha | Dithering::ColorAndAlpha);
+                    for _ in 0..(if bc1_alpha_dither { 0 } else if light { 1 } else { 3 }) {
+                        let (w, h) = (32u32, 4u32);
+                        let mut img = vec![0u8; (w * h * 4) as usize];
+                        let alphas: [u8; 8] = [0, 0, 1, 127, 128, 254, rng.next() as u8, 255];
+                        let cols: Vec<[u8; 4]> = (0..8).map(|k| { let c = rep565(rng.next() as u16); [c[0], c[1], c[2], alphas[k]] }).collect();
+                        for y in 0..h as usize { for x in 0..w as usize { let i = (y * w as usize + x) * 4; img[i..i + 4].copy_from_slice(&cols[x / 4]); } }
+                        check(out, format, &img, w, h, q, m, d, true, "single_colour_constant_alpha");
+                    }
+                    if format == Format::BC1_UNORM { check_bc1_threshold(out, q, m, d, &mut rng); }
                     // the degenerate direction: two colours with equal channel sums (red / green, red / blue, ...)
                     if d == Dithering::None {
                         for (a, b2) in [([255u8, 0, 0, 255], [0u8, 255, 0, 255]), ([255, 0, 0, 255], [0, 0, 255, 255]), ([132, 65, 0, 255], [0, 65, 132, 255])] {
